@@ -14,7 +14,7 @@
 struct fv_view { i32 status; u64 size, cap; i32 v[6]; i32 fwd[6]; u64 nfwd; i32 rev[6]; u64 nrev; i32 got; i32 data_ok; i32 iter_ok; };
 enum { OP_EMPLACE_BACK = 0, OP_POP_BACK, OP_ERASE, OP_AT, OP_AT_CONST, OP_INSERT_RV, OP_INSERT_LV, OP_PUSH_BACK, OP_EMPLACE_POS, OP_PUSH_RANGE2,
        OP_GET0, OP_GET1, OP_COPY_CTOR, OP_MOVE_CTOR, OP_COPY_ASSIGN, OP_MOVE_ASSIGN, OP_LIST_ASSIGN, OP_CTOR_ITERABLE, OP_INDEX_WRITE,
-       OP_USE_MOVED_FROM, OP_REVERSE_ADAPTOR };
+       OP_USE_MOVED_FROM, OP_REVERSE_ADAPTOR, OP_EMPLACE_POS_ALIAS };
 
 /* reference bounded list */
 struct ref { u32 n, cap; i32 e[8]; };
@@ -56,6 +56,10 @@ static int ref_apply(struct ref* r, int op, i32 arg, i32 arg2, u32 idx)
         if (idx > r->n || r->n >= r->cap) return 1;
         for (u32 i = r->n; i > idx; --i) r->e[i] = r->e[i - 1];
         r->e[idx] = arg; r->n++; return 0;
+    case OP_EMPLACE_POS_ALIAS:
+        if (idx > r->n || r->n >= r->cap || r->n == 0) return 1;
+        { i32 val = r->e[(u32)arg2 % r->n]; for (u32 i = r->n; i > idx; --i) r->e[i] = r->e[i - 1]; r->e[idx] = val; r->n++; }
+        return 0;
     case OP_PUSH_RANGE2:
         if (r->n + 2 > r->cap) return 1;
         r->e[r->n++] = arg; r->e[r->n++] = arg2; return 0;
@@ -87,6 +91,7 @@ int main(void)
     int op = OP;
 #endif
     if (op == OP_INDEX_WRITE) ASSUME(idx < n0 - pre);
+    if (op == OP_EMPLACE_POS_ALIAS) ASSUME(n0 - pre >= 1);   /* needs an element to alias */
     struct fv_view before, after, other; memset(&before, 0, sizeof before); memset(&after, 0, sizeof after); memset(&other, 0, sizeof other);
     struct ref r; r.cap = cap; r.n = n0 - pre; for (u32 i = 0; i < r.n; ++i) r.e[i] = init[i];
     struct ref r0 = r;
